@@ -257,6 +257,12 @@ var verifLoopBodies = []struct{ name, decl, body string }{
 	{"match-arm-exit", "", "    s = s + (1 + match i { 0 => { 0 - 1 }, _ => { if i > 0 { continue; } 5 } });\n"},
 	{"for-over-list-break", "", "    for x in [1, 2, 3] {\n      if x == 2 { break; }\n      s += 0;\n    }\n"},
 	{"nested-try-rethrow", "", "    s = s + try { 1 + try { if i >= 0 { throw(\"a\"); } 1 } catch e { throw(\"b\") } } catch f { 0 };\n"},
+	{"caught-throw-in-call-argument", "fn id(n: int) -> int {\n  return n;\n}\nfn fail(n: int) -> int {\n  if n >= 0 { throw(\"x\"); }\n  return n;\n}\n", "    try { s += id(fail(i)); } catch e { s += 0; }\n"},
+	{"caught-throw-in-closure-argument", "fn fail(n: int) -> int {\n  if n >= 0 { throw(\"x\"); }\n  return n;\n}\n", "    let f = fn(n: int) -> int { n };\n    try { s += f(fail(i)); } catch e { s += 0; }\n"},
+	{"caught-throw-in-builtin-argument", "fn fail(n: int) -> int {\n  if n >= 0 { throw(\"x\"); }\n  return n;\n}\n", "    try { println(fail(i)); } catch e { s += 0; }\n"},
+	{"break-in-call-argument", "fn id(n: int) -> int {\n  return n;\n}\n", "    loop {\n      s += id({ if i >= 0 { break; } 1 });\n    }\n"},
+	{"continue-in-call-argument", "fn id(n: int) -> int {\n  return n;\n}\n", "    s += id({ if i >= 0 { continue; } 1 });\n"},
+	{"method-call-argument-throws", "fn fail(n: int) -> int {\n  if n >= 0 { throw(\"x\"); }\n  return n;\n}\n", "    let l = [0];\n    try { l.push(fail(i)); } catch e { s += l.len() - 1; }\n"},
 }
 
 // VerifHarness_LoopStability: a loop of bounded depth behaves the same for 1 and for 60 iterations under every
@@ -265,7 +271,12 @@ func VerifHarness_LoopStability() {
 	bi := errors.VerifNdIntRange("body", 0, len(verifLoopBodies)-1)
 	b := verifLoopBodies[bi]
 	errors.VerifTag("body", b.name)
-	which := errors.VerifNdIntRange("limit", 0, 2) // 0 operand stack, 1 memory, 2 call depth
+	backend := errors.VerifNdIntRange("backend", 0, 1)
+	errors.VerifTag("backend", []string{"vm", "tree"}[backend])
+	which := 2
+	if backend == 0 {
+		which = errors.VerifNdIntRange("limit", 0, 2) // 0 operand stack, 1 memory, 2 call depth (the tree interpreter has the call depth only)
+	}
 	sizes := []uint{4, 6, 8, 10, 12, 16, 20, 24, 32, 48}
 	lim := sizes[errors.VerifNdIntRange("size", 0, len(sizes)-1)]
 	errors.VerifTag("limit-kind", []string{"stack", "memory", "calls"}[which])
@@ -288,7 +299,14 @@ func VerifHarness_LoopStability() {
 		if an.hasError {
 			errors.VerifInconclusive("loop program rejected: " + an.describe())
 		}
-		o, crashed, msg := verifRunVMGuarded(an, inputs, limits)
+		var o verifOutcome
+		var crashed bool
+		var msg string
+		if backend == 0 {
+			o, crashed, msg = verifRunVMGuarded(an, inputs, limits)
+		} else {
+			crashed, msg = errors.VerifPanics(func() { o = verifRunTree(an, nil, inputs, lim, newVerifCtx()) })
+		}
 		if crashed {
 			errors.VerifTag("panic", errors.VerifNorm(msg))
 		}
@@ -304,4 +322,77 @@ func VerifHarness_LoopStability() {
 		errors.VerifReached("one-iteration-fits")
 	}
 	errors.VerifAssert("bounded-depth-loop-runs-indefinitely", (classes[0] == "ok") == (classes[1] == "ok"))
+}
+
+// VerifHarness_ArgumentDepth: evaluating the arguments of a call happens in the caller's frame, so `id(id(...id(i)))`
+// (D calls nested in argument position) needs the same call depth as D calls in sequence: under every call-depth
+// limit both programs have the same outcome, and the nested one completes whenever main + one frame fit.
+func VerifHarness_ArgumentDepth() {
+	backend := errors.VerifNdIntRange("backend", 0, 1)
+	errors.VerifTag("backend", []string{"vm", "tree"}[backend])
+	d := errors.VerifNdIntRange("D", 1, errors.VerifParam("D", 12))
+	callee := errors.VerifNdIntRange("callee", 0, 2) // function, closure, function over a builtin method call
+	errors.VerifTag("shape", fmt.Sprint("D=", d, " callee=", callee))
+	sizes := []uint{3, 4, 6, 8, 12, 20}
+	lim := sizes[errors.VerifNdIntRange("size", 0, len(sizes)-1)]
+	errors.VerifTag("__limit", fmt.Sprint(lim))
+	decl := "fn id(n: int) -> int {\n  return n + 1;\n}\n"
+	pre := ""
+	if callee == 1 {
+		decl = ""
+		pre = "  let id = fn(n: int) -> int { n + 1 };\n"
+	}
+	nested := "A"
+	seq := "  let t = A;\n"
+	for i := 0; i < d; i++ {
+		if callee == 2 {
+			nested = "id([" + nested + "].len())"
+			seq += "  t = id([t].len());\n"
+		} else {
+			nested = "id(" + nested + ")"
+			seq += "  t = id(t);\n"
+		}
+	}
+	a := errors.VerifNdInt64("A")
+	errors.VerifAssume(a >= 0 && a <= 9)
+	inputs := []verifInput{{name: "A", kind: 'i', i: a}}
+	progs := []string{
+		decl + "fn main() {\n" + pre + "  println(" + nested + ");\n}\n",
+		decl + "fn main() {\n" + pre + seq + "  println(t);\n}\n",
+	}
+	var classes, outs [2]string
+	for idx, code := range progs {
+		an := verifAnalyze(code, nil, inputs, true)
+		if an.hasError {
+			errors.VerifTag("diag", an.describe())
+			errors.VerifAssert("accepted", false)
+			return
+		}
+		var o verifOutcome
+		var crashed bool
+		var msg string
+		if backend == 0 {
+			limits := verifLimits
+			limits.CallStackMaxSize = lim
+			o, crashed, msg = verifRunVMGuarded(an, inputs, limits)
+		} else {
+			crashed, msg = errors.VerifPanics(func() { o = verifRunTree(an, nil, inputs, lim, newVerifCtx()) })
+		}
+		if crashed {
+			errors.VerifTag("panic", errors.VerifNorm(msg))
+		}
+		errors.VerifAssert("limit-never-crashes-the-host", !crashed)
+		if crashed {
+			return
+		}
+		classes[idx], outs[idx] = o.class, o.out
+	}
+	errors.VerifReached("ran")
+	errors.VerifAssert("calls-in-argument-position-need-no-more-depth-than-calls-in-sequence", classes[0] == classes[1])
+	if classes[0] == "ok" && classes[1] == "ok" {
+		errors.VerifAssert("same-result", outs[0] == outs[1])
+	}
+	if lim >= 4 {
+		errors.VerifAssert("depth-two-program-fits", classes[0] == "ok")
+	}
 }
